@@ -31,6 +31,7 @@ func C03_LoginRoutes() {
 		o.modules = []string{"auth", "lock", "confirm", "logout", "oauth2", "otp", "recover", "register", "remember"}
 	}
 	f := newFlow(o)
+	f.thoroughAxes()
 	route := verif.Param("route")
 	if route == "" {
 		route = c03Routes[verif.Choice("route", len(c03Routes))]
